@@ -974,7 +974,8 @@ def c08_family(tier, rnd):
     # (b') the same sequence in other Python carriers (tuple, UserList, a sized container whose iterator is a
     # generator, an iterable without length, the old __getitem__ protocol, deque): every variable at every position,
     # alone and as outer / inner loop
-    for car in ("tuple", "userlist", "bag", "nolen", "oldseq", "deque"):
+    # (... and iterables whose truth value says nothing about their items: false, length 0 before iteration, not defined)
+    for car in ("tuple", "userlist", "bag", "nolen", "oldseq", "deque", "falsy", "lazylen", "nobool"):
         al = Alloc(tier)
         items = [Text("pre\n  "), Open(rep=(False, "x", al.call("repeat", [SEQ([S("a"), S("b"), S("c")]), SEQ([S("a")]), SEQ([])]))),
                  _repbody("x"), CLOSE, Text("post", pipe(var("x"), const(S("u0"))))]
@@ -1181,6 +1182,19 @@ def c09_family(tier, rnd):
             main = [Text("pre"), Open(name="span", define=[(True, "x", al.call("define", [S("a")]))], sattr=[]), Text("d", *_P()), CLOSE,
                     Open(name="ul", sattr=[], **kw), Text("l", *_P())] + use + [Text("r", *_P()), CLOSE, Text("post", *_P())]
             build(main, m, al, "P2h:%s:%s" % (shadow, macro_global))
+    # P2i: every global definition of a name is made by macros of ANOTHER template (the calling template defines the name
+    # only locally): set by one macro, hidden by a local define / repeat variable of the caller, re-defined by a second
+    # macro inside that element -- after the element the second definition is the visible one
+    for shadow in ("define", "repeat"):
+        for redefine in (True, False):
+            al = Alloc(tier)
+            m0 = [Open(dm="m0", name="div", define=[(True, "g", al.call("define", [S("a")]))], sattr=[]), Text("M0", *_P()), CLOSE]
+            m1 = [Open(dm="m1", name="p", define=[(True, "g", al.call("define", [S("c")]))] if redefine else [], sattr=[]), Text("M1", *_P()), CLOSE]
+            kw = {"define": [(False, "g", al.call("define", [S("b")]))]} if shadow == "define" else \
+                {"rep": (False, "g", al.call("repeat", [SEQ([S("b"), S("p")])]))}
+            main = [Text("pre", *_P())] + mk_use("m0", 1, [], tag="article") + [Text("d", *_P()),
+                    Open(name="ul", sattr=[], **kw), Text("l", *_P())] + mk_use("m1", 1, []) + [Text("r", *_P()), CLOSE, Text("post", *_P())]
+            build(main, m0 + [Text("\n")] + m1, al, "P2i:%s:%s" % (shadow, redefine))
     # P2f: a global defined inside a filler is visible in the rest of the macro and afterwards in the caller
     al = Alloc(tier)
     m = [Open(dm="m1", name="div", sattr=[]), Text("M", *_P()), Open(ds="a", name="i", sattr=[]), Text("Da"), CLOSE, Text("n", *_P()), CLOSE]
